@@ -263,6 +263,7 @@ func c16orderedTargets(rng *sx.Rng, n int) {
 		text, form := renderDoc(doc, i)
 		a, derr := decodeText(text)
 		if derr != nil {
+			oracleFail("C16", "document-rejected", sx.L(sx.A("ordered-map-fields"), sx.A(form), sx.A(text)), "a generated, well-formed document does not decode: "+derr.Error())
 			continue
 		}
 		short := sx.L(sx.A("ordered-map-fields"), sx.A(form), sx.A(text))
@@ -478,6 +479,7 @@ func init() {
 			text, form := renderDoc(d, i)
 			a, derr := decodeText(text)
 			if derr != nil {
+				oracleFail("C16", "document-rejected", sx.L(sx.A(ty.name), sx.A(form), sx.A(text)), "a generated, well-formed document does not decode: "+derr.Error())
 				continue
 			}
 			c := sx.L(sx.A(ty.name), anySexp(a))
